@@ -17,14 +17,16 @@ func Emit(out *wh.Out, res *Result) {
 	if len(res.Stuck) > 0 && res.Sc.Tag == "" {
 		stuckTotal++
 	}
-	for _, l := range res.SubStreams() {
-		out.Case(l, "ok")
-	}
-	for _, l := range res.TopicStreams() {
-		out.Case(l, "ok")
-	}
-	if l := res.RegStream(); l != "" {
-		out.Case(l, "ok")
+	if !res.Sc.Big {
+		for _, l := range res.SubStreams() {
+			out.Case(l, "ok")
+		}
+		for _, l := range res.TopicStreams() {
+			out.Case(l, "ok")
+		}
+		if l := res.RegStream(); l != "" {
+			out.Case(l, "ok")
+		}
 	}
 	out.Case(res.TopTrace(), "ok")
 	out.Add("events", len(res.Events))
